@@ -38,7 +38,7 @@ DECIDING = [
     "pipeline-exactly-once", "pipeline-totals",
 ]
 BRANCHES = ["representing_distribution:add", "representing_distribution:eliminate", "_check_sample_elimination:resample"]
-BUDGET = {"quick": (4, 30, 12000), "thorough": (16, 120, 400000)}
+BUDGET = {"quick": (4, 30, 36000), "thorough": (16, 120, 400000)}
 
 BIG = 2 ** 53
 
